@@ -108,6 +108,9 @@ open_(['C01'], r'cert\.(bound|side):\{[^}]*ratiotester=0[^}]*scaler=0[^}]*\}.*',
 open_(['C17'], r'resolve-after-clearBasis-differs:.*',
       'solving the same unmodified object again after clearBasis() is not a replica of the first solve (different iteration count / vertex in 1-3% of the LPs): per-solve state survives clearBasis()', regex=True)
 # --- exact solver
+open_(['C03'], r'undecided\.ABORT_ITER:\{[^}]*recovery_mechanism=1[^}]*\}.*',
+      'exact solve with the recovery mechanism switched on (bool:recovery_mechanism=1, default off): the refinement loop burns the whole iteration limit on a 10x10 LP and ends ABORT_ITER although rational reconstruction is available', regex=True,
+      repro='./vcheck C03 --seed 7: key C03:undecided.ABORT_ITER:{recovery_mechanism=1}+onlyreal')
 open_(['C03', 'C04', 'C11'], r'.*lifting=1.*',
       'exact solve with lifting=1: heap-buffer-overflow / use-after-free in _lowerFinite/_transformEquality (bound-type arrays not resized for the lifted LP), wrong verdicts, invalid Farkas proofs and rays', regex=True)
 open_(['C03'], r'objvalue.*:\{.*iterative_refinement=0.*\}.*',
